@@ -94,6 +94,10 @@ def def_items():
     items += [{'ty': 'def', 'name': 'c3', 'type': "'a => 'a", 'prop': "c3 x = ?x"}, {'ty': 'def', 'name': 'c1', 'type': "'a => bool", 'prop': "c1 x <--> (?x = x)"},
               {'ty': 'def', 'name': 'c2', 'type': "'a => 'a => bool", 'prop': "c2 x y <--> (?y = x)"}, {'ty': 'def', 'name': 'c6', 'type': "nat => bool", 'prop': "c6 n <--> (?n = 0)"},
               {'ty': 'def', 'name': 'c6', 'type': "nat => bool", 'prop': "c6 n <--> ?n"}]
+    # constants the theory already has, "defined" again at exactly their type
+    items += [{'ty': 'def', 'name': 'true', 'type': "bool", 'prop': "true <--> false"}, {'ty': 'def', 'name': 'false', 'type': "bool", 'prop': "false <--> true"},
+              {'ty': 'def', 'name': 'disj', 'type': "bool => bool => bool", 'prop': "disj x y <--> x & y"}, {'ty': 'def', 'name': 'neg', 'type': "bool => bool", 'prop': "neg x <--> x"},
+              {'ty': 'def', 'name': 'true', 'type': "bool", 'prop': "true <--> (!u::'b. !v::'b. u = v)"}]
     # malformed / overloaded
     items += [{'ty': 'def', 'name': 'plus', 'type': "bool => bool => bool", 'prop': "plus (x::bool) y <--> x | y"},
               {'ty': 'def', 'name': 'c1', 'type': "'a => bool", 'prop': "c1 x --> true"},
@@ -333,6 +337,9 @@ def ind_type(t, env=()):
     return fT.args[1]
 
 
+EXISTING = {}
+
+
 def check_item(data):
     """-> (kind or None, detail, accepted)"""
     from server import items
@@ -340,6 +347,11 @@ def check_item(data):
     from kernel.type import BoolType
     from logic import basic
     basic.load_theory('nat')          # fresh copy of the theory for every item
+    if not EXISTING:
+        from kernel.type import BoolType, TFun
+        for nm in ('true', 'false', 'conj', 'disj', 'neg', 'implies'):
+            if theory.thy.has_term_sig(nm) and not theory.thy.is_overload_const(nm):
+                EXISTING[nm] = theory.thy.get_term_sig(nm)
     try:
         item = items.parse_item(dict(data))
     except Exception as e:
@@ -374,6 +386,15 @@ def check_item(data):
     kind_rt, why_rt = round_trip(data, item)
     if kind_rt:
         return kind_rt, why_rt, True
+    if data['ty'] == 'def' and data['name'] in EXISTING and item.type == EXISTING[data['name']]:
+        # a second "definition" of a constant the theory already has (not an overloaded instance): the equation is installed as a
+        # theorem about the existing constant, so it must at least be true of it
+        from vlib.holsmt import Oracle
+        v = Oracle(timeout_ms=3000).valid([], close(item.prop))
+        if v.status == 'invalid':
+            return 'def-inconsistent', 'definition item `%s :: %s` with `%s` is accepted and installed although %s is an existing constant of the theory and the equation is false of it (%s)' % (
+                data['name'], data['type'], data['prop'], data['name'], v.how), True
+        return None, 'fine', True
     if data['ty'] == 'def':
         r, why = consistent(item.prop, item.name, item.type)
         if r == 'unsat':
